@@ -149,4 +149,33 @@ CATALOGUE = [
     dict(id="c19-silent-local-result", props=["C19", "C16"], file=OPS + "fm_count_leafs.py", expect="silent",
          old="        self.result = count_leaf_features(fm_model)",
          new="        leafs = count_leaf_features(fm_model)\n        self.result = leafs"),
+    # ---- C17 ------------------------------------------------------------------------------------
+    dict(id="c17-size-of-other-listing", props=["C17"], file=OPS + "fm_metrics.py", rule="C17-SIZE",
+         old="            size=len(_abstract_features),", new="            size=len(self._features),"),
+    dict(id="c17-ratio-wrong-denominator", props=["C17"], file=OPS + "fm_metrics.py", rule="C17-RATIO",
+         old="ratio=self.get_ratio(_or_groups, _group_features),",
+         new="ratio=self.get_ratio(_or_groups, self._features),"),
+    dict(id="c17-duplicate-name", props=["C17"], file=OPS + "fm_metrics.py", rule="C17-NAMES",
+         old='name = "Max depth of tree"', new='name = "Depth of tree"'),
+    dict(id="c17-compound-includes-leaf", props=["C17"], file=OPS + "fm_metrics.py", rule="C17-",
+         old="f.name for f in self._features if len(f.get_relations()) > 0",
+         new="f.name for f in self._features if len(f.get_relations()) >= 0"),
+    dict(id="c17-depth-off-by-one", props=["C17"], file=OPS + "fm_metrics.py", rule="C17-D",
+         old="            len(self.get_feature_ancestors(self._features_by_name[f]))",
+         new="            len(self.get_feature_ancestors(self._features_by_name[f])) + 1"),
+    dict(id="c17-min-children-all-features", props=["C17"], file=OPS + "fm_metrics.py", rule="C17-DEF",
+         old="                if not feature.is_leaf()\n            ),\n            default=0,",
+         new="            ),\n            default=0,"),
+    dict(id="c17-grouped-by-parent", props=["C17"], file=OPS + "fm_metrics.py", rule="C17-",
+         old="            r.is_group() and feature in r.children for r in parent.get_relations()",
+         new="            r.is_group() for r in parent.get_relations()"),
+    dict(id="c17-avg-children-non-leaf", props=["C17"], file=OPS + "fm_metrics.py", rule="C17-DEF",
+         old="_avg_children_per_feature = round(nof_children / len(self._features), 2)",
+         new="_avg_children_per_feature = round(nof_children / len(self._features), 1)"),
+    dict(id="c17-stale-cache", props=["C17", "C19"], file=OPS + "fm_metrics.py", rule="C1",
+         old="        self._leaf_features = [\n            f.name for f in self._features if len(f.get_relations()) == 0\n        ]",
+         new="        if not self._leaf_features:\n            self._leaf_features = [\n                f.name for f in self._features if len(f.get_relations()) == 0\n            ]"),
+    dict(id="c17-silent-rename-local", props=["C17"], file=OPS + "fm_metrics.py", expect="silent",
+         old="        _features = list(self._features_by_name.keys())\n        result = self.construct_result(\n            name=name, doc=self.features.__doc__, result=_features, size=len(_features)",
+         new="        names = [f.name for f in self._features]\n        result = self.construct_result(\n            name=name, doc=self.features.__doc__, result=names, size=len(names)"),
 ]
